@@ -399,6 +399,72 @@ standin_reorder_tagged.prop = "C06"
 STANDINS.append(standin_reorder_tagged)
 
 
+def standin_symbolized_merge(tier, seed):
+    """merge_single_qubit_gates_to_phxz_symbolized returns a circuit AND a sweep: for every point, the new circuit at the new point has the
+    unitary of the old circuit at the old point (up to global phase)"""
+    import cirq
+    import sympy
+
+    rng = random.Random(seed + 29)
+    cases, fails = 0, []
+    a, b, c = sympy.symbols("a b c")
+    q = cirq.LineQubit.range(3)
+    fixed = [cirq.Circuit(cirq.X(q[0]) ** a, cirq.CZ(q[0], q[1]) ** a, cirq.Y(q[1]) ** 0.5)]  # the recorded shared-symbol input, always tried
+    for it in range(30 if tier == "quick" else 300):
+        shared = rng.random() < 0.4
+        ops_ = []
+        for _ in range(rng.randrange(2, 7) if it >= len(fixed) else 0):
+            r = rng.random()
+            if r < 0.55:
+                e = rng.choice([a, b, 0.5, 0.25, a + b])
+                ops_.append(rng.choice([cirq.X, cirq.Y, cirq.Z, cirq.H])(rng.choice(q)) ** e)
+            else:
+                e = rng.choice([c, 0.5, 1.0] + ([a] if shared else []))
+                ops_.append(rng.choice([cirq.CZ, cirq.ISWAP, cirq.ZZ])(*rng.sample(q, 2)) ** e)
+        circ = cirq.Circuit(ops_) if it >= len(fixed) else fixed[it]
+        syms = sorted(cirq.parameter_names(circ))
+        if not syms:
+            continue
+        npts = rng.choice([1, 2, 3]) if it >= len(fixed) else 2
+        sweep = cirq.Zip(*[cirq.Points(n_, [rng.choice([0.25, 0.75, -0.5, 1.0, 0.1]) for _ in range(npts)]) for n_ in syms]) if it >= len(fixed) else cirq.Points("a", [0.25, 0.75])
+        one_q = set().union(*[cirq.parameter_names(o) for o in circ.all_operations() if len(o.qubits) == 1] or [set()])
+        multi_q = set().union(*[cirq.parameter_names(o) for o in circ.all_operations() if len(o.qubits) > 1] or [set()])
+        is_shared = bool(one_q & multi_q)
+        cases += 1
+        try:
+            nc, ns = cirq.merge_single_qubit_gates_to_phxz_symbolized(circ, sweep=sweep)
+        except Exception as ex:
+            continue  # a refusal (e.g. structures that differ between points) is not a wrong answer
+        olds, news = list(cirq.to_resolvers(sweep)), list(cirq.to_resolvers(ns))
+        if len(olds) != len(news):
+            fails.append(dict(args=dict(circuit=repr(circ), sweep=repr(sweep)), failed="symbolized-merge-sweep-length", clause=f"the new sweep has {len(news)} points, the old one {len(olds)}"))
+            continue
+        for k, (po, pn) in enumerate(zip(olds, news)):
+            try:
+                u1 = cirq.resolve_parameters(circ, po).unitary(qubit_order=q, qubits_that_should_be_present=q)
+                u2 = cirq.resolve_parameters(nc, pn).unitary(qubit_order=q, qubits_that_should_be_present=q)
+            except Exception as ex:
+                fails.append(dict(args=dict(circuit=repr(circ), sweep=repr(sweep), point=k, symbol_shared_with_a_multi_qubit_gate=is_shared), failed="symbolized-merge-unresolved",
+                                  clause=f"the new circuit at the new point cannot be evaluated: {type(ex).__name__}: {str(ex)[:120]}"))
+                break
+            if not cirq.allclose_up_to_global_phase(u1, u2, atol=1e-6):
+                fails.append(dict(args=dict(circuit=repr(circ), sweep=repr(sweep), point=k, symbol_shared_with_a_multi_qubit_gate=is_shared),
+                                  failed="symbolized-merge-shared-symbol" if is_shared else "symbolized-merge",
+                                  clause=f"point {k}: the new circuit at the new point differs from the old circuit at the old point (beyond global phase)"
+                                         + ("; a symbol of a one-qubit gate also appears in a multi-qubit gate" if is_shared else "")))
+                break
+    seen, uniq = set(), []
+    for f in fails:
+        if f["failed"] not in seen:
+            seen.add(f["failed"])
+            uniq.append(f)
+    return dict(function=F + "/merge_single_qubit_gates.py:merge_single_qubit_gates_to_phxz_symbolized", case="symbolized-merge",
+                bound="seeded 3-qubit circuits of 2-6 parameterized one- and two-qubit gates x zipped sweeps of 1-3 points; symbols of one-qubit gates sometimes shared with two-qubit gates",
+                cases=cases, distinct=cases, failures=len(fails), exhaustive=False, _fails=uniq[:3])
+standin_symbolized_merge.prop = "C06"
+STANDINS.append(standin_symbolized_merge)
+
+
 def standin_subcircuit_handling(tier, seed):
     """sub-circuit operations (tagged to be ignored or not, nested, repeated) under deep=False / deep=True: tagged operations are
     found unchanged at the same nesting position, untagged sub-circuits are untouched unless deep is requested, the unitary stays"""
